@@ -286,7 +286,7 @@ impl Driver for C11 {
                 Ok(true) => {
                     out.tag(if case % 3 == 2 { "data-driven-program-preserved" } else if case % 2 == 0 { "expression-corpus-preserved" } else { "model-text-preserved" });
                     out.nontrivial(hash_str(&text));
-                    if case == 1 && out.unit < 4 {
+                    if out.report.samples.is_empty() && out.unit < 16 {
                         out.sample(json!({"original": text, "formatted": format_text(&text).and_then(|r| r.ok())}));
                     }
                 }
